@@ -75,6 +75,98 @@ TABLE = {
                 ".grad must be the same object with the same bits and _version.",
         "note": "Only leaves' .grad is inspected. A call that is accepted instead of rejected is recorded, not judged (the property is conditional on rejection).",
     },
+    "C03": {
+        "level": "exploration", "design_ref": "DESIGN.md §4 C03",
+        "technique": "runtime monitor: aggregator output vs an executable reference model (exact QP minimiser by Lawson-Hanson NNLS / active-set enumeration, certified a posteriori by a KKT strong-convexity bound)",
+        "text": "UPGrad / DualProj are run on hostile matrices, preference vectors and (norm_eps, reg_eps) pairs sampled a decade apart, on both "
+                "sides of the normalisation threshold; the output must equal J^T w* for the exact minimiser w* of the regularised QP, in units of "
+                "s |w*| with a tolerance derived from the conditioning; below norm_eps and without conflicts it must be J^T u.",
+        "note": "Trusted base: NumPy/SciPy float64 linear algebra; the reference is only used when its own KKT certificate is 4x tighter than the tolerance.",
+    },
+    "C04": {
+        "level": "exploration", "design_ref": "DESIGN.md §4 C04",
+        "technique": "runtime monitor: assertion on J.A(J) with the stated allowances; exhaustive enumeration of all {-1,0,1} matrices up to 3x3; reference min-norm point by support enumeration",
+        "text": "Every entry of J.A(J) must be >= -(allowance + rounding slop) for UPGrad, DualProj, MGDA and CAGrad(c>=1): exhaustively on all 21 297 "
+                "{-1,0,1} matrices up to 3x3 and on hostile matrices with preference vectors and iteration budgets; MGDA's sub-optimality is also "
+                "compared with 8 s^2/(max_iters+2).",
+        "note": "Allowances as stated in the property; CAGrad tolerance 1e-6 (float64) / 5e-3 (float32) times s^2 (1+c).",
+    },
+    "C08": {
+        "level": "exploration", "design_ref": "DESIGN.md §4 C08",
+        "technique": "runtime monitor: metamorphic relations (orthogonal / isometric change of coordinates, column permutation, zero columns, row-span residual) with float64 well-posedness guards and replayed RNG draws",
+        "text": "15 aggregators x hostile and well-conditioned matrices: A(JQ) = A(J)Q for Gramian-based ones, column-permutation and "
+                "zero-column equivariance for all (randomised ones under identical recorded draws), output in the row span for weighted ones.",
+        "note": "Inputs on which a decision threshold of the algorithm is within rounding distance are not judged (counted).",
+    },
+    "C09": {
+        "level": "exploration", "design_ref": "DESIGN.md §4 C09",
+        "technique": "runtime monitor: metamorphic relation A(diag(a c1 + b c2) J) = a A(diag(c1) J) + b A(diag(c2) J); reg_eps ladder for UPGrad",
+        "text": "Mean, Sum, Constant, ConFIG, PCGrad and Random (identical draws) must be linear in positive row scalings to rounding; UPGrad's defect "
+                "must stay below 500 sqrt(reg_eps) x scale on every rung of the ladder 1e-2..1e-12 and below 1e-3 x scale on the last.",
+        "note": "Scale = a s1|w1| + b s2|w2| + s3|w3| with weights read by a forward hook (>= 1).",
+    },
+    "C10": {
+        "level": "exploration", "design_ref": "DESIGN.md §4 C10",
+        "technique": "runtime monitor: metamorphic relation under ALL m! row permutations (m <= 4 quick, <= 5 thorough), preference / weight / leak vectors permuted along",
+        "text": "13 aggregators, with and without per-row vectors, must give the same result for every row permutation of every judged matrix "
+                "(exhaustive for small m, 20 random permutations beyond).",
+        "note": "Score ties, ambiguous rank, argmin ties and near-stationarity are not judged.",
+    },
+    "C11": {
+        "level": "exploration", "design_ref": "DESIGN.md §3, §4 C11",
+        "technique": "runtime contracts (icontract) on every Aggregator.__call__ + scale ladder over 27/200 decades + rejection matrix + call-history differential against fresh instances",
+        "text": "An always-on contract checks on every aggregator call that the input is untouched (bits and _version), the module state is "
+                "unchanged and the result has the right shape / dtype / finiteness; a ladder of scales checks totality and A(tJ) = tA(J); "
+                "invalid inputs must raise ValueError; results must not depend on earlier calls; equal seeds give equal results. The "
+                "thorough tier also runs the repository's own tests under the contracts.",
+        "note": "NashMTL excluded as the property says; homogeneity of UPGrad / DualProj / CAGrad only while both scales are >= 2 norm_eps.",
+    },
+    "C14": {
+        "level": "exploration", "design_ref": "DESIGN.md §4 C14",
+        "technique": "runtime monitor: executable type-checking model of the transform algebra vs real constructors and applications; exhaustive enumeration of depth <= 1 terms over 3 keys",
+        "text": "All atoms and all binary composites (depth <= 1, exhaustive), class-representative combinations at depth 2 and 3 and random terms: "
+                "constructibility, required/output keys, rejection of all 7 wrong key sets, output keys and dictionary type, associativity / "
+                "commutativity, immutability and shape checks of the five dictionary types; plus the Transform.__call__ contract.",
+        "note": "Type-ill-formed but key-well-formed terms are judged for construction and key checks only.",
+    },
+    "C15": {
+        "level": "exploration", "design_ref": "DESIGN.md §4 C15",
+        "technique": "runtime monitor: each building-block transform vs torch.autograd VJPs on a twin graph / NumPy restatement of its specification",
+        "text": "Grad, Jac (rows vs Grad, linearity, zeros for unreachable inputs, chunk sizes), Jac chaining vs end-to-end, Init, Diagonalize, Stack, "
+                "Select and Aggregate (recording proxy) on random keys of 0-d..4-d shapes with equal-sized keys frequent.",
+        "note": "Trusted base: torch.autograd.grad with explicit cotangents.",
+    },
+    "C16": {
+        "level": "fault_enumeration", "design_ref": "DESIGN.md §4 C16",
+        "technique": "fault injection: up to b / f rows replaced by arbitrary values up to 1e12 x the honest scale; reference definitions; exhaustive too-few-rows grid",
+        "text": "TrimmedMean must equal its definition and stay inside the interval of the untouched rows; Krum must be the plain average of exactly "
+                "the k rows with the smallest reference scores; both must reject every matrix with too few rows (grid exhaustive for m <= 9).",
+        "note": "Krum judged when the relative gap between the k-th and (k+1)-th score is >= 1e-6.",
+    },
+    "C17": {
+        "level": "exploration", "design_ref": "DESIGN.md §4 C17",
+        "technique": "runtime monitor: defining equations of IMTL-G / ConFIG / Aligned-MTL asserted on full-row-rank matrices of bounded condition number",
+        "text": "Equal projections and unit-sum weights (IMTL-G), equal positive cosines proportional to the preference vector and length = sum of "
+                "projections (ConFIG), orthogonal re-balanced rows of length sigma_min and preference-weighted combination (Aligned-MTL), zero "
+                "matrices of all shapes.",
+        "note": "Condition number <= 1e4 (float64) / 1e2 (float32); Aligned-MTL <= 50 because its rank tolerance uses the float32 epsilon.",
+    },
+    "C18": {
+        "level": "exploration", "design_ref": "DESIGN.md §4 C18",
+        "technique": "schedule injection (scripted torch.randperm: all (m-1)!^m projection orders for m <= 3/4) + recorded RNG draws + finite candidate sets + defining equations",
+        "text": "PCGrad is forced through every combination of projection orders and compared with the reference for that schedule; free-seed "
+                "outputs must lie in the candidate set; GradDrop coordinates must be one of the two candidates and agree with the recorded "
+                "uniform draws; MGDA / Random / CAGrad against their defining equations.",
+        "note": "Decisions within rounding distance of their threshold are not judged.",
+    },
+    "C19": {
+        "level": "exploration", "design_ref": "DESIGN.md §4 C19",
+        "technique": "runtime monitor: call/reset histories vs fresh-instance replays and a schedule model; recorder on cvxpy.Problem.solve; exhaustive histories over {M1, M2, reset}",
+        "text": "All histories up to length 3 (quick) / 5 (thorough) x k in 1..4 x max_norm in {0,0.5,1,10}: every call returns, the suffix after the "
+                "last reset equals a fresh instance, the solver is entered exactly on calls 0, k, 2k.. and reused weights equal the last "
+                "recomputed ones, the norm bound holds.",
+        "note": "Weights recovered by least squares on full-row-rank matrices; ECOS deterministic.",
+    },
 }
 _ALL = [f"C{i:02d}" for i in range(1, 21)]
 NOT_APPLICABLE = {p: "check not built yet in this session (planned, see DESIGN.md §4); not claimed until its monitor runs clean"
